@@ -600,7 +600,7 @@ func Run(spec Spec, waitOrphans bool) (*Obs, *Sim, error) {
 				// every context that the model expects to complete has been observed, so a late
 				// watcher cannot mistake the new process for the old one
 				for _, pr := range pills {
-					if pr.p.Fate == "effective" || pr.p.Fate == "dead" {
+					if pr.p.Fate == "effective" || pr.p.Fate == "dead" || (pr.p.Fate == "orphan" && waitOrphans) {
 						select {
 						case <-pr.done:
 						case <-time.After(waitLimit):
